@@ -422,7 +422,12 @@ func Families(tier string) []Family {
 					if ev != "<unset>" {
 						c.Env = []EnvCfg{{Name: T("VERIF_ENV_O"), Val: T(ev)}}
 					}
-					f.Defs = append(f.Defs, Def{Cfg: c, Tokens: toks, L: lim(tier, 2, 3)})
+					d := Def{Cfg: c, Tokens: toks, L: lim(tier, 2, 3)}
+					if ei == 2 {
+						// history: the environment value still counts as "called" when Parse runs again on the same object
+						d.Pres = [][]Tok{{}, Ts("--ot")}
+					}
+					f.Defs = append(f.Defs, d)
 				}
 			}
 		}
